@@ -114,6 +114,11 @@ RTValues(codec) ==
     [] codec = "yaml"  -> AnyValues(YamlAtoms)
     [] codec = "xml"   -> XmlStructs \cup XmlFeeds
     [] codec = "text"  -> { Str(s) : s \in ValidStrings \cup BinaryStrings \cup TrickyStrings }
+                          \* payloads that are TextMarshaler AND Stringer with different renderings: "dual" (harness type),
+                          \* "time" (time.Time, s = its RFC 3339 text)
+                          \cup { V("dual", s, <<>>, <<>>) : s \in { <<97>>, <<97, 32, 98>>, <<195, 169>>, <<49, 50, 51>> } }
+                          \cup { V("time", s, <<>>, <<>>) : s \in { <<50,48,50,48,45,48,49,45,48,50,84,48,51,58,48,52,58,48,53,90>>,
+                                                                     <<49,57,57,57,45,49,50,45,51,49,84,50,51,58,53,57,58,53,57,46,53,43,48,50,58,48,48>> } }
     [] codec = "bytes" -> { Str(s) : s \in ValidStrings \cup BinaryStrings }
 
 (* how the produced document is read back: chunk size (0 = all at once),    *)
